@@ -3,7 +3,7 @@
    (panic) | (fuel)), (r <class>) for entry points run through another property's model (no cost annotation), and
    (r any) where no model exists (the direct evaluation on the implementation still decides). *)
 From LV Require Import Base.Bytes Base.Sx Model.Obj Model.A85 Model.Png Model.Parser Model.RangeMap Model.CMap Model.CMapParser
-     Model.Xref Model.ObjStm Model.Safe Model.SafeFilt Model.SafeText.
+     Model.Xref Model.ObjStm Model.Safe Model.SafeFilt Model.SafeText Model.SafeXref.
 
 Definition class_sx (o : out N) : sx :=
   match o with
@@ -120,12 +120,37 @@ Definition run (x : sx) : sx :=
           match dict_get d (bs "Filter") with
           | Some _ => any_sx
           | None =>
-            match decode_xref_plain d c with
-            | XOk (x, _) => plain_sx (SOk (nlen (x_entries x)))
-            | XErr _ => plain_sx SErr
-            | XPanic => plain_sx (SPanic ROverflow)
-            | XOut => plain_sx SFuel
-            | XNoMatch => plain_sx SErr
+            (* the outcome and the number of entries from C02's model, the cost from the Safe model; the two models
+               must agree on the outcome class *)
+            let cls := match decode_xref_plain d c with
+                       | XOk (x, _) => SOk (nlen (x_entries x))
+                       | XErr _ => SErr
+                       | XPanic => SPanic ROverflow
+                       | XOut => SFuel
+                       | XNoMatch => SErr
+                       end in
+            match dict_get d (bs "Size") with
+            | Some (OInt size) =>
+              let index := match dict_get d (bs "Index") with
+                           | Some o => match parse_integer_array o with Some l => l | None => [0%Z; size] end
+                           | None => [0%Z; size]
+                           end in
+              match dict_get d (bs "W") with
+              | Some o =>
+                match parse_integer_array o with
+                | Some ws =>
+                  let m := sxref_stream index ws c in
+                  let same := match cls, outcome m with
+                              | SOk _, SOk _ | SErr, SErr | SPanic _, SPanic _ | SFuel, SFuel => true
+                              | _, _ => false
+                              end in
+                  if same then SL [sx_id "r"; class_sx cls; SL [sx_id "c"; sx_N (steps m); sx_N (max_alloc m); sx_N (max_depth m)]]
+                  else SL [sx_id "r"; sx_id "models-disagree"]
+                | None => plain_sx cls
+                end
+              | None => plain_sx cls
+              end
+            | _ => plain_sx cls
             end
           end
         | _, _ => sx_id "badcase"
